@@ -17,6 +17,7 @@ import time
 import z3
 
 W = 8  # bits per character
+CROSS = {"every": 0, "checked": 0, "n": 0}   # re-decide every N-th query with cvc5 (thorough tier)
 
 
 class Unsupported(BaseException):
@@ -242,11 +243,47 @@ class Engine:
         self.stats["solver_s"] += time.time() - t
         if r == z3.unknown:
             raise HarnessError("solver returned unknown")
+        if CROSS["every"]:
+            CROSS["n"] += 1
+            if CROSS["n"] % CROSS["every"] == 0:
+                self._cross_check(extra, str(r))
         if r == z3.sat:
             self.stats["sat"] += 1
             return sv.model()
         self.stats["unsat"] += 1
         return None
+
+    def _cross_check(self, extra, verdict):
+        """second opinion: the same query re-decided by cvc5 (a different QF_BV decision procedure)"""
+        try:
+            import cvc5
+        except Exception:
+            return
+        s2 = z3.Solver()
+        if self.domains:
+            s2.add(*self.domains.values())
+        if self.cons:
+            s2.add(*self.cons)
+        if extra is not None:
+            s2.add(extra)
+        smt = "(set-logic QF_BV)\n" + s2.to_smt2()
+        slv = cvc5.Solver()
+        par = cvc5.InputParser(slv)
+        par.setStringInput(cvc5.InputLanguage.SMT_LIB_2_6, smt, "q")
+        sm = par.getSymbolManager()
+        res = None
+        while True:
+            cmd = par.nextCommand()
+            if cmd.isNull():
+                break
+            out = cmd.invoke(slv, sm).strip()
+            if "(error" in out:
+                raise HarnessError("cvc5 reported an error on a cross-checked query: %s" % out[:200])
+            if out in ("sat", "unsat", "unknown"):
+                res = out
+        CROSS["checked"] += 1
+        if res in ("sat", "unsat") and res != verdict:
+            raise HarnessError("solver disagreement: z3 says %s, cvc5 says %s" % (verdict, res))
 
     def _start(self, prefix):
         self.cons = []
